@@ -35,6 +35,7 @@ TEnd == /\ IsEv("end")
 TFinal == /\ IsEv("final")
           /\ Cardinality(Winners) = 1
           /\ Ev.key \in DOMAIN store /\ store[Ev.key] \in Winners
+          /\ Ev.val = store[Ev.key]            \* what the real store holds is what the specification's store holds
           /\ UNCHANGED <<store, ended>>
 
 TNext == TReset \/ THas \/ TGet \/ TPut \/ TEnd \/ TFinal
